@@ -140,33 +140,14 @@ where
                 Err(callback) => f = callback,
             }
 
-            loop {
-                // If we got here then the regional state is not initialized. Let us initialize it.
-                // We now need a value to initialize the region state with. The latest written value
-                // (for our weakly consistent definition of "latest") is stored in the global state.
-                // Note that other threads in the region may also be racing to initialize. While
-                // there is mutual exclusion built in, it remains up to us here to detect ordering
-                // issues and reinitialize if an outdated value was set.
-                #[cfg(folo_verif)]
-                crate::verif::point("rc.load_latest");
-
-                let initial_value = self.global_state.latest_value.load();
-
-                let expected_generation = initial_value.generation;
-                let actual_generation = regional_state.initialize(&initial_value);
-
-                // The commit will fail if the generation of the value we set does not match
-                // the generation of the value that was initialized. We do not know which one
-                // is the correct one, so we just retry until we get a match.
-                if expected_generation == actual_generation {
-                    // We are done - the universe did not change during initialization.
-                    break;
-                }
-
-                // Retry initialization. It could be that our expected value was wrong, in which
-                // case we perform some wasted cloning but avoid violating causality.
-                self.global_state.invalidate_regions();
-            }
+            // If we got here then the regional state is not initialized. Let us initialize it
+            // with the latest written value (for our weakly consistent definition of "latest"),
+            // which is stored in the global state. Other threads in the region may also be
+            // racing to initialize and writers may be publishing new values at the same time;
+            // `initialize()` guarantees that whatever ends up in the regional state was the
+            // latest value at some point after the most recent invalidation of the region.
+            // If nothing ended up there (because of a concurrent write), we simply try again.
+            regional_state.initialize(&self.global_state.latest_value);
         }
     }
 
@@ -475,7 +456,7 @@ where
     // Skip mutating - would lead to infinite loop as it looks just like another thread
     // constantly resetting the value, so the conflict resolver will never finish.
     #[cfg_attr(test, mutants::skip)]
-    fn initialize(&self, value: &GenerationValue<T>) -> u64 {
+    fn initialize(&self, latest_value: &ArcSwap<GenerationValue<T>>) {
         // This is a conditional swap - we only initialize if we can swap in our "initializing"
         // value onto a clean slate. If someone else got there first, we line up behind them
         // and wait for them to finish before we do anything.
@@ -499,20 +480,22 @@ where
                         // Loop back and try to read again to see what we got.
                         continue;
                     }
-                    RegionalValue::Ready(GenerationValue { generation, .. }) => {
-                        return *generation;
+                    RegionalValue::Ready(_) => {
+                        return;
                     }
                 }
             }
 
             // Nothing is happening. We may be the first to start initializing.
             let attempt_signal = Arc::new(ManualResetEvent::new(EventState::Unset));
-            let attempt = RegionalValue::<T>::Initializing(Arc::clone(&attempt_signal));
+            let attempt = Some(Arc::new(RegionalValue::<T>::Initializing(Arc::clone(
+                &attempt_signal,
+            ))));
 
             #[cfg(folo_verif)]
             crate::verif::point("rc.init.cas");
 
-            let previous_value = self.value.compare_and_swap(reader, Some(Arc::new(attempt)));
+            let previous_value = self.value.compare_and_swap(reader, attempt.clone());
 
             if !previous_value.is_none() {
                 // Someone raced ahead of us. Re-enter loop.
@@ -530,18 +513,25 @@ where
                 cleanup_signal.set();
             });
 
-            let new_value = RegionalValue::Ready(value.clone());
-
-            // It is possible that another thread has assigned a new global value
-            // while we are doing this, so our `value` is out of date already. We
-            // detect this in the caller by checking (after initialization) whether
-            // the value that was set is of the expected generation. If not, everything
-            // starts all over again for the current thread and it tries to re-initialize.
-
+            // We only look at the latest value now that our "initializing" marker is in place.
+            // A writer publishes its value first and invalidates the regions after that, so
+            // any write that we do not see here has yet to invalidate this region - and will
+            // thereby remove either our marker or the value we are about to install.
             #[cfg(folo_verif)]
-            crate::verif::point("rc.init.store");
+            crate::verif::point("rc.init.latest");
 
-            self.value.store(Some(Arc::new(new_value)));
+            let value = latest_value.load();
+            let new_value = RegionalValue::Ready((**value).clone());
+
+            // We only install the value if our marker is still in place. If it is not, the
+            // region has been invalidated by a writer in the meantime (and has perhaps already
+            // been initialized again by someone else), so the value we have may be outdated.
+            // The caller will see what is there and try again if necessary.
+            #[cfg(folo_verif)]
+            crate::verif::point("rc.init.install");
+
+            self.value
+                .compare_and_swap(&attempt, Some(Arc::new(new_value)));
 
             // We are done initializing. Notify all waiters that they can continue.
             attempt_signal.set();
@@ -549,7 +539,7 @@ where
             // Disarm the cleanup guard since initialization succeeded.
             scopeguard::ScopeGuard::into_inner(cleanup_guard);
 
-            return value.generation;
+            return;
         }
     }
 
